@@ -54,6 +54,8 @@ def run(chk, repo, tier):
     chk.clause('C07-i', 'the pointwise product with a plane: a one-element phasor inherits the shape and offset of the field (and vice versa); the product is taken on the overlap', 3)
     from .c06 import product_rules
     product_rules(chk, repo, 'C07-i')
+    from .plane_flow import product_rule
+    product_rule(chk, repo, 'C07-i')
     # ... and which samples count as overlap (and whether two fields overlap at all, which also decides if intensity
     # sums them coherently) is the extent arithmetic
     from .extent_rules import extent_identities
